@@ -421,6 +421,19 @@ class Ctx:
                 self.log("pins_%s.log" % module, out)
                 for b in bad:
                     failed.append(module + "." + b + ":statement-pin")
+        if self.tier == "thorough" and not failed:
+            # independent re-check of the compiled files and everything they depend on
+            mods = ["%s.%s" % (LOGICAL, m) for m in module_theorems]
+            rc, out = sh(["coqchk", "-silent", "-o", "-Q", COQ, LOGICAL] + mods, cwd=COQ, timeout=3000)
+            self.log("coqchk.log", out)
+            m = re.search(r"\* Axioms:\s*(.*?)\n\s*\n", out, re.S)
+            axioms = m.group(1).strip() if m else "?"
+            ok = rc == 0 and "type-in-type: <none>" in out and "unsafe (co)fixpoints: <none>" in out and "positivity is assumed: <none>" in out
+            listed = [] if axioms == "<none>" else [a.strip() for a in axioms.split("\n") if a.strip()]
+            extra = [a for a in listed if not any(a.startswith(x) or x in a for x in allow_axioms)]
+            self.cov["coqchk"] = {"modules": mods, "rc": rc, "axioms": axioms, "ok": ok and not extra}
+            if not ok or extra:
+                failed.append("coqchk:" + (",".join(extra) if extra else "rc=%d" % rc))
         self.failed_obligations += failed
         return not failed
 
